@@ -576,6 +576,11 @@ def trace_validate(ctx, event_files, cap=40000, chunk=4000, par=8, reset_between
                              "actual": "%s %s, %s steps" % (ev.get("st"), ev.get("val"), ev.get("ticks")), "extra": {"diag": dg}})
     n = sum(r["n"] for r in res)
     log("trace validation: %d events in %d chunks, %.0fs; decided by the spec: %s; %d rejected" % (n, len(chunks), time.time() - t0, totals, len(findings)))
+    if findings:
+        byc = {}
+        for f_ in findings:
+            byc[f_["cat"]] = byc.get(f_["cat"], 0) + 1
+        log("trace rejections by category: %s" % byc)
     return {"events": n, "rejections": findings, "totals": totals}
 
 # ----------------------------------------------------------------------------------------------- checks
